@@ -9,7 +9,7 @@ pub const LIB_TEXT: &str = "pub fn a(x) { x }\npub fn c() { 1 }\nfn p() { 2 }\np
 pub const SUB_NAME: &str = "sub/m2";
 /// It also imports the first one and hands out a value of ITS record type (`mk`): a module that imports only `sub/m2` can then
 /// hold a record whose type and field `f` are declared in a module it does not import.
-pub const SUB_TEXT: &str = "import m2\npub type M { N }\ntype N { M }\npub const k = 2\npub type R { R(f: Int) }\npub type T { W }\npub fn c() { 3 }\ntype P { Q }\npub type A { C A(a: Int) }\nfn p() { 4 }\npub fn a(x) { x }\npub fn s(y: A) -> T { let _ = #(c(), a(k), A(a: 1), C, y, R(f: 2)) W }\npub fn mk() -> m2.R { m2.R(f: 1) }\n";
+pub const SUB_TEXT: &str = "import m2\npub type M { N }\ntype N { M }\npub const k = 2\npub type R { R(f: Int) }\npub type T { W }\npub fn c() { 3 }\ntype P { Q }\npub type A { C A(a: Int) }\nfn p() { 4 }\npub fn a(x) { x }\npub fn s(y: A) -> T { let _ = #(c(), a(k), A(a: 1), C, y, R(f: 2)) W }\npub fn mk() -> m2.R { m2.R(f: 1) }\nfn ev(n) { case n { 0 -> m2.a(1) _ -> od(n) } }\nfn od(n) { case n { 0 -> m2.c() _ -> ev(n) } }\n";
 
 /// The library modules of a GleamGen workspace: (module path, text, id of the module in the specification); the module with
 /// index i is FileId(1 + i).
@@ -73,6 +73,9 @@ pub fn lib_uses_of(lib: usize) -> Vec<(u64, usize)> {
         (2010, g("-> m2.R", 6)),
         (2009, g("m2.R(f: 1)", 3)),
         (2011, g("m2.R(f: 1)", 5)),
+        // a recursion group of two private functions, each with a qualified access at the same place of its body
+        (2001, SUB_TEXT.find("m2.a(1)").unwrap() + 3),
+        (2002, SUB_TEXT.find("m2.c()").unwrap() + 3),
     ]
 }
 
